@@ -61,6 +61,9 @@ type SchedPlan struct {
 	Quantum  int              `json:"quantum,omitempty"`
 	Points   []verifsim.Point `json:"points,omitempty"`
 	Expect   string           `json:"expect,omitempty"` // violation key this replay is expected to reproduce
+	// RefOut: outcome classes of every op as measured by the (purely sequential)
+	// generating process; the executing process compares its own runs with them
+	RefOut [][]string `json:"ref_out,omitempty"`
 }
 
 func (p *SchedPlan) Clone() *SchedPlan {
@@ -69,6 +72,10 @@ func (p *SchedPlan) Clone() *SchedPlan {
 	q.Primed = append([]bool(nil), p.Primed...)
 	q.Data = append([]DatumSpec(nil), p.Data...)
 	q.Points = append([]verifsim.Point(nil), p.Points...)
+	q.RefOut = make([][]string, len(p.RefOut))
+	for i, r := range p.RefOut {
+		q.RefOut[i] = append([]string(nil), r...)
+	}
 	q.Tasks = make([][]SOp, len(p.Tasks))
 	for i, t := range p.Tasks {
 		q.Tasks[i] = make([]SOp, len(t))
@@ -92,6 +99,9 @@ func (p *SchedPlan) NOps() int {
 func (p *SchedPlan) DropTask(t int) *SchedPlan {
 	q := p.Clone()
 	q.Tasks = append(q.Tasks[:t], q.Tasks[t+1:]...)
+	if t < len(q.RefOut) {
+		q.RefOut = append(q.RefOut[:t], q.RefOut[t+1:]...)
+	}
 	var pts []verifsim.Point
 	for _, pt := range q.Points {
 		if pt.Task == t {
@@ -141,6 +151,7 @@ func (p *SchedPlan) DropOp(t, j int) *SchedPlan {
 		}
 	}
 	var kept []SOp
+	var keptRef []string
 	remap := make([]int, len(ops))
 	for i, o := range ops {
 		if drop[i] {
@@ -149,8 +160,14 @@ func (p *SchedPlan) DropOp(t, j int) *SchedPlan {
 		}
 		remap[i] = len(kept)
 		kept = append(kept, o)
+		if t < len(q.RefOut) && i < len(q.RefOut[t]) {
+			keptRef = append(keptRef, q.RefOut[t][i])
+		}
 	}
 	q.Tasks[t] = kept
+	if t < len(q.RefOut) {
+		q.RefOut[t] = keptRef
+	}
 	var pts []verifsim.Point
 	for _, pt := range q.Points {
 		if pt.Task == t {
